@@ -121,26 +121,53 @@ pub trait MixedCtor: GlamTy {
 macro_rules! mixed_none {
     ($($T:ident),*) => { $( impl MixedCtor for $T {} )* };
 }
+/// Members of a mixed tuple are themselves vectors with a past: besides a fresh `new`, they are produced by short write
+/// histories through single-lane paths (fields, IndexMut, with_*), which on SIMD-backed members leave anything outside
+/// the visible lanes stale. The visible lanes are the same in every mode.
+pub const MEMBER_MODES: usize = 4;
+macro_rules! member2 {
+    ($V:ident, $m:expr, $a:expr, $b:expr) => {{
+        let (a, b) = ($a, $b);
+        match $m {
+            0 => $V::new(a, b),
+            1 => { let mut t = $V::new(b, a); t.x = a; t.y = b; t }
+            2 => { let mut t = $V::splat(b); t[0] = a; t }
+            _ => $V::splat(a).with_y(b),
+        }
+    }};
+}
+macro_rules! member3 {
+    ($V:ident, $m:expr, $a:expr, $b:expr, $c:expr) => {{
+        let (a, b, c) = ($a, $b, $c);
+        match $m {
+            0 => $V::new(a, b, c),
+            1 => { let mut t = $V::new(c, a, b); t.z = c; t.x = a; t.y = b; t }
+            2 => { let mut t = $V::splat(a); t[2] = c; t[1] = b; t }
+            _ => $V::splat(b).with_z(c).with_x(a),
+        }
+    }};
+}
 macro_rules! mixed3 {
     ($T:ident, $V2:ident) => {
         impl MixedCtor for $T {
-            fn mixed_count() -> usize { 1 }
-            fn from_mixed(_k: usize, v: &[Self::E]) -> Self { <$T>::from(($V2::new(v[0], v[1]), v[2])) }
+            fn mixed_count() -> usize { MEMBER_MODES }
+            fn from_mixed(k: usize, v: &[Self::E]) -> Self { <$T>::from((member2!($V2, k % MEMBER_MODES, v[0], v[1]), v[2])) }
         }
     };
 }
 macro_rules! mixed4 {
     ($T:ident, $V2:ident, $V3:ident $(, $V3A:ident)?) => {
         impl MixedCtor for $T {
-            fn mixed_count() -> usize { 4 $( + { let _ = stringify!($V3A); 2 } )? }
+            fn mixed_count() -> usize { (4 $( + { let _ = stringify!($V3A); 2 } )?) * MEMBER_MODES }
             fn from_mixed(k: usize, v: &[Self::E]) -> Self {
-                match k {
-                    0 => <$T>::from(($V3::new(v[0], v[1], v[2]), v[3])),
-                    1 => <$T>::from((v[0], $V3::new(v[1], v[2], v[3]))),
-                    2 => <$T>::from(($V2::new(v[0], v[1]), v[2], v[3])),
-                    3 => <$T>::from(($V2::new(v[0], v[1]), $V2::new(v[2], v[3]))),
-                    $( 4 => <$T>::from(($V3A::new(v[0], v[1], v[2]), v[3])),
-                       5 => <$T>::from((v[0], $V3A::new(v[1], v[2], v[3]))), )?
+                let m = k % MEMBER_MODES;
+                match k / MEMBER_MODES {
+                    0 => <$T>::from((member3!($V3, m, v[0], v[1], v[2]), v[3])),
+                    1 => <$T>::from((v[0], member3!($V3, m, v[1], v[2], v[3]))),
+                    2 => <$T>::from((member2!($V2, m, v[0], v[1]), v[2], v[3])),
+                    3 => <$T>::from((member2!($V2, m, v[0], v[1]), member2!($V2, (m + 1) % MEMBER_MODES, v[2], v[3]))),
+                    $( 4 => <$T>::from((member3!($V3A, m, v[0], v[1], v[2]), v[3])),
+                       5 => <$T>::from((v[0], member3!($V3A, m, v[1], v[2], v[3]))), )?
                     _ => unreachable!(),
                 }
             }
